@@ -522,9 +522,19 @@ class Shard:
 
     # ---- users
     def create_users(self):
-        for u in self.users:
+        for n, u in enumerate(self.users):
             body = {"username": u["name"], "nickname": u["name"], "password": PW, "roles": ROLES[u["role"]]}
             p = u["shape"].param()
+            u["via_update"] = False
+            if p is not None and n % 3 == 1:
+                # every third user reaches its privilege through an admin UPDATE of a wider one (whitelist of every seeded
+                # namespace): the restriction must be what the last acknowledged update says, not what the user had before
+                wide = {"whitelistIsAll": False, "whitelist": sorted(set(NSID.values()) | set(TWIN.values())), "blacklistIsAll": False, "blacklist": []}
+                body["namespacePrivilegeParam"] = wide
+                self.adm("POST", V2 + "/user/add", j=body)
+                self.adm("POST", V2 + "/user/update", j={"username": u["name"], "namespacePrivilegeParam": p})
+                u["via_update"] = True
+                continue
             if p is not None:
                 body["namespacePrivilegeParam"] = p
             self.adm("POST", V2 + "/user/add", j=body)
@@ -539,6 +549,11 @@ class Shard:
             ok = got.get("enabled") is True and got.get("whitelistIsAll") == want["whitelistIsAll"] and got.get("blacklistIsAll") == want["blacklistIsAll"] \
                 and sorted(got.get("whitelist") or []) == sorted(want["whitelist"]) and sorted(got.get("blacklist") or []) == sorted(want["blacklist"]) \
                 and s.get("roles") == [ROLES[u["role"]]]
+            if not ok and u.get("via_update"):
+                # not an infrastructure problem: the acknowledged update did not take effect; the sweep below judges the user
+                # against the privilege the admin asked for
+                self.update_not_stored = getattr(self, "update_not_stored", []) + [{"user": u["name"], "requested": want, "stored": got}]
+                continue
             if not ok:
                 raise common.Inconclusive("stored privilege of %s differs from the requested one: %s" % (u["name"], json.dumps(got)))
         self.disable_privileges([u["name"] for u in self.users if u["shape"].disabled])
